@@ -7,7 +7,7 @@ Reads /tmp/wtout/CXX/mK.{diff,_demo.py,_meta.json}; works in the scratch worktre
 """
 import json, os, subprocess, sys, time, shutil
 
-WT = '/tmp/wt/mine2'
+WT = os.environ.get('SEED_WT', '/tmp/wt/mine2')
 TESTMAP = {
   'brax/kinematics.py': ['brax/kinematics_test.py', 'brax/spring/pipeline_test.py'],
   'brax/scan.py': ['brax/scan_test.py', 'brax/kinematics_test.py'],
